@@ -13,8 +13,8 @@ def crashDQ : Crash := .indexOOB "oops overflowed drain queue"
 def crashPR : Crash := .indexOOB "drain_releases: presses overflow"
 def crashTM : Crash := .indexOOB "too many presses in queue"
 
-theorem smolPushAssert_err {q : List Queued} {x : Queued} {c : Crash} (h : smolPushAssert q x = .error c) : c = crashDQ := by
-  unfold smolPushAssert at h
+theorem drainPushAssert_err {q : List Queued} {x : Queued} {c : Crash} (h : drainPushAssert q x = .error c) : c = crashDQ := by
+  unfold drainPushAssert at h
   split at h
   · cases h
   · cases h; rfl
@@ -31,7 +31,7 @@ theorem drainVirtualKeys_err : ∀ (q dq : List Queued) (c : Crash), drainVirtua
       · rename_i c' he; cases h; exact ih _ _ he
       · cases h
     · split at h
-      · rename_i c' he; cases h; exact smolPushAssert_err he
+      · rename_i c' he; cases h; exact drainPushAssert_err he
       · exact ih _ _ h
 
 theorem drainReleases_err : ∀ (q : List Queued) (np : Nat) (achs : List ActiveChord) (dq : List Queued) (c : Crash),
@@ -44,10 +44,8 @@ theorem drainReleases_err : ∀ (q : List Queued) (np : Nat) (achs : List Active
     simp only [drainReleases] at h
     split at h
     · split at h
-      · cases h; rfl
-      · split at h
-        · rename_i c' he; cases h; exact ih _ _ _ _ he
-        · cases h
+      · rename_i c' he; cases h; exact ih _ _ _ _ he
+      · cases h
     · split at h
       · exact ih _ _ _ _ h
       · split at h
@@ -63,7 +61,7 @@ theorem collectPresses_err : ∀ (q : List Queued) (ps : List Nat) (c : Crash), 
     simp only [collectPresses] at h
     split at h
     · split at h
-      · cases h; rfl
+      · exact ih _ _ h
       · exact ih _ _ h
     · split at h
       · cases h
@@ -78,7 +76,7 @@ theorem clearReleased_err : ∀ (achs : List ActiveChord) (dq : List Queued) (c 
     simp only [clearReleased] at h
     split at h
     · split at h
-      · rename_i c' he; cases h; exact smolPushAssert_err he
+      · rename_i c' he; cases h; exact drainPushAssert_err he
       · exact ih _ _ h
     · split at h
       · rename_i c' he; cases h; exact ih _ _ he
